@@ -11,7 +11,7 @@
     complete new content, [d0 (File (dest s))] the previous one. *)
 From Coq Require Import List Bool Arith.
 From SV Require Import SM.AtomicWriter SM.AtomicWriterProofs SM.AtomicWriterThms SM.AtomicExit SM.AtomicExitProofs
-  SM.AtomicOpenLoopProofs SM.AtomicSameDestProofs.
+  SM.AtomicOpenLoopProofs SM.AtomicSameDestProofs SM.AtomicReuse SM.AtomicReuseProofs.
 Import ListNotations.
 
 (** Old or new, never a mixture; new exactly when the replace has succeeded — at every point of every execution,
@@ -283,3 +283,77 @@ Theorem c12_same_destination_last_rename_wins :
   sd (run2 cfg_fixed sc_a1 sb (seq false ++ seq true) (start d_old)) (File 0) = Some [7] /\
   sd (run2 cfg_fixed sc_a1 sb (seq true ++ seq false) (start d_old)) (File 0) = Some [1].
 Proof. exact same_dest_last_rename_wins. Qed.
+
+(** * One AtomicWriter object used for several [with] blocks (SM/AtomicReuse.v)
+
+    What survives a [with] block is the object's instance attributes.  [o : wobj] is generated from today's source:
+    the program of [__exit__], the attribute slots it mentions, their values after [__init__], what
+    [__enter__]/[make_tempfile] assign on every entry, which attributes are never assigned again.  [proto_at o a] is the
+    exit protocol of a use that starts with the attributes in state [a]; [reuse_indep o] (a boolean the check
+    discharges by vm_compute) enumerates EVERY state [a] that agrees with [__init__] on the constant attributes.
+    A history [h] is a list of uses (scenario, fault pattern, attribute state the object happens to be in), each run
+    in the directory the previous one left ([hrun]/[hfinal]); a killed use ends the history. *)
+
+(** In whatever state earlier uses left the attributes, the next use runs the protocol of a fresh object. *)
+Theorem c12_reuse_every_use_runs_the_first_use_protocol : forall o, reuse_indep o = true ->
+  forall a, ostate o a -> proto_at o a = obj_proto o.
+Proof. exact reuse_indep_sound. Qed.
+Theorem c12_reuse_fresh_object_is_a_state : forall o, reuse_indep o = true -> ostate o (o_init o).
+Proof. exact init_is_a_state. Qed.
+
+(** Every use of every history (successful, abandoned by the body, failing with OSErrors anywhere, killed; in any
+    order: S, F, SF, SSF, FSF, SFS, ...) is a good single use relative to the directory it started in: destination
+    old or complete new (new exactly when its rename succeeded), any OSError / body exception keeps the previous
+    contents, a finished use whose cleanup unlink was not itself refused leaves every temp name as it found it, every
+    other file untouched. *)
+Theorem c12_reuse_history : forall o, reuse_indep o = true -> proto_ok (obj_proto o) = true ->
+  forall h, hstates_ok o h -> forall d, hist_good o h d.
+Proof. exact reuse_history_good. Qed.
+
+(** Temp files do not accumulate over a history, and files that are no destination are never touched. *)
+Theorem c12_reuse_no_temp_accumulates : forall o, reuse_indep o = true -> proto_ok (obj_proto o) = true ->
+  forall h, hstates_ok o h -> forall d, hclean o h d ->
+  (forall i, hfinal o h d (Tmp i) = d (Tmp i)) /\
+  (forall k, (forall u, In u h -> dest (fst (fst u)) <> k) -> hfinal o h d (File k) = d (File k)).
+Proof. exact reuse_no_temp_accumulates. Qed.
+
+(** Non-vacuity: today's class (no attribute besides handle, temp name, destination), and a "committed" flag kept in
+    an attribute that is reset on entry or at the start of [__exit__], satisfy the hypotheses. *)
+Theorem c12_reuse_repaired_object_ok :
+  reuse_indep obj_fixed = true /\ proto_ok (obj_proto obj_fixed) = true /\
+  exit_always_leaves obj_fixed 0 VNone = true /\ init_unentered obj_fixed = true /\ enter_binds obj_fixed = true.
+Proof. exact obj_fixed_reusable. Qed.
+Theorem c12_reuse_flag_attribute_reset_ok :
+  reuse_indep obj_flag_reset_on_entry = true /\ proto_ok (obj_proto obj_flag_reset_on_entry) = true /\
+  reuse_indep obj_flag_reset_in_exit = true /\ proto_ok (obj_proto obj_flag_reset_in_exit) = true.
+Proof. exact obj_flag_reset_reusable. Qed.
+
+(** The hypothesis is needed: the same flag initialised by [__init__] only (the shape of seeded c12_4).  The first
+    use is good, [reuse_indep] is false; after one successful use the flag is True, and the next use, abandoned by the
+    body after one write, leaves tmp_1 = [1] behind although no operation failed. *)
+Theorem c12_reuse_flag_never_reset_refuted :
+  let o := obj_flag_never_reset in
+  proto_ok (obj_proto o) = true /\ reuse_indep o = false /\
+  ok_leaf (leaf_tree o (o_init o) false
+             (fun e => is_val VNone (e 0) && is_val VTName (e 1) && is_val VDest (e 2) && is_val VTrue (e 6))) = true /\
+  ostate o st_after_success /\
+  let h := [(sc_a, repeat false 7, o_init o); (sc_raise, repeat false 6, st_after_success)] in
+  hclean o h d_old /\
+  hfinal o h d_old (Tmp 1) = Some [1] /\ d_old (Tmp 1) = None /\ hfinal o h d_old (File 0) = Some [1; 2; 3].
+Proof. exact flag_never_reset_refuted. Qed.
+
+(** * A history of [BSP.save] calls
+    Every call builds a fresh writer object; the rebuild phase of a call may raise before the writer is entered
+    ([pre = false]: nothing at all happens, the next call finds the directory as it was).  Every call of every history
+    is a good single use relative to the directory it started in, and temp files do not accumulate. *)
+Theorem c12_save_history : forall x, proto_ok x = true -> forall h d, shist_good x h d.
+Proof. exact save_history_good. Qed.
+Theorem c12_save_history_no_temp_accumulates : forall x, proto_ok x = true -> forall h d, shclean x h d ->
+  (forall i, shfinal x h d (Tmp i) = d (Tmp i)) /\
+  (forall k, (forall u, In u h -> dest (snd (fst u)) <> k) -> shfinal x h d (File k) = d (File k)).
+Proof. exact save_history_no_temp_accumulates. Qed.
+Theorem c12_save_history_example :
+  let x := obj_proto obj_fixed in
+  let h := [(true, sc_a, repeat false 7); (false, sc_a, []); (true, sc_raise, repeat false 6)] in
+  shclean x h d_old /\ shfinal x h d_old (File 0) = Some [1; 2; 3] /\ shfinal x h d_old (Tmp 1) = d_old (Tmp 1).
+Proof. exact save_history_example. Qed.
